@@ -21,11 +21,13 @@
  */
 
 #include <cctype>
+#include <cerrno>
 #include <cstdarg>
 #include <cstdio>
 #include <cstdlib>
 #include <cstring>
 #include <fstream>
+#include <limits>
 
 #include <algorithm>
 #include <stack>
@@ -257,9 +259,17 @@ void FormatRST(fmt::Writer &w,
 
 int OptionHelper<int>::Parse(const char *&s, bool) {
   char *end = 0;
+  errno = 0;
   long value = std::strtol(s, &end, 10);
+  const char *start = s;
   s = end;
-  return value;
+  if (ERANGE == errno ||
+      value < std::numeric_limits<int>::min() ||
+      value > std::numeric_limits<int>::max())      // don't truncate
+    throw OptionError(fmt::format(
+        "Integer value \"{}\" is out of range",
+        std::string(start, end - start)));
+  return static_cast<int>(value);
 }
 
 double OptionHelper<double>::Parse(const char *&s, bool) {
